@@ -284,11 +284,19 @@ func driverRules(c *Ctx, r1, r2 string) {
 			}
 		}
 	}
-	if len(rbsop) != 1 || len(rbpart) != 1 {
-		c.Violated(r2, "Rollback: inventory", fr.Decl.Pos(), fmt.Sprintf("expected one SOP Rollback and one participant Rollback loop, found %d/%d", len(rbsop), len(rbpart)), nil)
+	if len(rbsop) < 1 || len(rbpart) != 1 {
+		c.Violated(r2, "Rollback: inventory", fr.Decl.Pos(), fmt.Sprintf("expected a SOP Rollback call and one participant Rollback loop, found %d/%d", len(rbsop), len(rbpart)), nil)
 		return
 	}
-	offs := gr.MustPrecede(func(n *GNode) bool { return n == rbsop[0] }, isExit)
+	c.Held(r2, "Rollback: inventory", fr.Decl.Pos(), fmt.Sprintf("%d SOP Rollback call(s), one participant Rollback loop", len(rbsop)))
+	offs := gr.MustPrecede(func(n *GNode) bool {
+		for _, x := range rbsop {
+			if n == x {
+				return true
+			}
+		}
+		return false
+	}, isExit)
 	c.Offences(gr, offs, r2, "Rollback: SOP Rollback on every path", rbsop[0].Ast.Pos(), "every path to the exit calls SOP's Rollback", "exit reachable without SOP Rollback")
 	if rbHelper != nil {
 		offs = gr.MustPrecede(func(n *GNode) bool { return n == rbpart[0] }, isExit)
